@@ -1,8 +1,46 @@
-(** C18 uses the shared engine correspondence (CorrEng.v): a case is a rule system with an
-    injected failure, a population and the request sequence actually run by harness/c18.py
-    (the pseudo request "fix" already resolved to the set_input it stands for); the
-    observation lists, for every request, the answer (value or error kind), the depth of
-    the evaluation stack afterwards and the whole content of the holders afterwards. *)
-From Verif Require Export CorrEng.
+(** Correspondence for C18.  A case is a population and a list of segments: each segment is a
+    rule system and the requests run under it.  Within a segment the rule system only
+    changes through [RSwitch]; between two segments harness/c18.py replaced the class of a
+    variable on the live tax-benefit system (TaxBenefitSystem.replace_variable /
+    update_variable): the machine state - cache, stack, invalidated set - is carried over
+    and the next segment's rule system has the new formulas.  The pseudo request "fix" of
+    the harness is already resolved to the set_input it stands for.
 
-Definition run : case -> Obs.obs := CorrEng.run.
+    The observation lists, for every request, the answer (value or error kind), the depth
+    of the evaluation stack afterwards and the whole content of the holders afterwards; a
+    segment boundary is observed like a request answering nothing. *)
+From Coq Require Import ZArith List Bool String.
+From Verif Require Import Base Obs Cal Tables Period Np Group Param Engine.
+From Verif Require Export CorrEng.
+Import ListNotations.
+Open Scope Z_scope.
+
+Inductive case :=
+  | CSeq (pp : popu) (segs : list (sys * list request))
+  | CSkip.
+
+Definition ostate (a : answer) (s : st) : obs :=
+  OL [oanswer a; OZ (Z.of_nat (List.length (stack s))); ocache (cache s)].
+
+Fixpoint run_obs_st (fuel : nat) (sy : sys) (pp : popu) (s : st) (rs : list request) : st * list obs :=
+  match rs with
+  | [] => (s, [])
+  | r :: rest =>
+      let '(s1, a) := step fuel sy pp s r in
+      let '(s2, l) := run_obs_st fuel (sys_after sy r) pp s1 rest in
+      (s2, ostate a s1 :: l)
+  end.
+
+Fixpoint run_segs (pp : popu) (s : st) (first : bool) (segs : list (sys * list request)) : list obs :=
+  match segs with
+  | [] => []
+  | (sy, rs) :: rest =>
+      let '(s1, l) := run_obs_st (enough_fuel sy) sy pp s rs in
+      (if first then [] else [ostate ANone s]) ++ l ++ run_segs pp s1 false rest
+  end.
+
+Definition run (c : case) : obs :=
+  match c with
+  | CSeq pp segs => OL (run_segs pp (init []) true segs)
+  | CSkip => OS "skip"%string
+  end.
